@@ -116,4 +116,17 @@ theorem beToNat_natToMinBE (v : Nat) : beToNat (natToMinBE v) = v := by
       simp [beToNat_nil]
       omega
 
+/-- the minimal encoding of a non-zero value starts with a non-zero byte -/
+theorem natToMinBE_head {v : Nat} (hv : v ≠ 0) : ∃ x rest, natToMinBE v = x :: rest ∧ x ≠ 0 := by
+  induction v using Nat.strongRecOn with
+  | _ v ih =>
+    have hb := byteLen_pos hv
+    have hstep : natToMinBE v = natToMinBE (v / 256) ++ [v % 256] := by
+      simp only [natToMinBE, hb, natToBE]
+    by_cases hq : v / 256 = 0
+    · rw [hstep, hq]
+      refine ⟨v % 256, [], by simp [natToMinBE, byteLen_zero, natToBE], by omega⟩
+    · obtain ⟨x, rest, hx, hx0⟩ := ih (v / 256) (by omega) hq
+      exact ⟨x, rest ++ [v % 256], by rw [hstep, hx]; rfl, hx0⟩
+
 end Aiocoap.Oscore.Prot
